@@ -85,7 +85,9 @@ def codec_check(ctx, fns, invariants, rule):
             if len(ctx.samples) < 6 and (ctx.evaluations % 997 == 3):
                 ctx.samples.append(e)
     # split large traces over several TLC runs (single-threaded each)
-    ctx.validate(ctx.prop + "_CodecTrace", "CodecTrace", tf, per_case=False)
+    tr = ctx.validate(ctx.prop + "_CodecTrace", "CodecTrace", tf, per_case=False)
+    # every recorded call is a case of its own
+    tr["cases"] = sum(1 for l in C.read_lines(tf) if '"ev":"codec"' in l)
     ctx.rule = rule
     ctx.assumptions += [
         "the TLA+ modules Vint/Payload are an independently written reference (from RFC 8794 / IEEE-754), themselves model-checked by MC_Codec over every word of <= %d bytes, the boundary lattice and every width" % maxlen,
@@ -93,8 +95,27 @@ def codec_check(ctx, fns, invariants, rule):
     ]
 
 
+def apalache_vintarith(ctx):
+    """Unbounded part: the integer-level lemmas of the vint codec for *all* values, discharged symbolically by Apalache."""
+    import time
+    t0 = time.time()
+    outdir = C.ensure_dir(os.path.join(C.WORK, "apalache"))
+    try:
+        p = subprocess.run(["apalache-mc", "check", "--init=Init", "--next=Next", "--inv=Lemma", "--length=0", "--out-dir=" + outdir, "VintArith.tla"],
+                           cwd=os.path.join(C.SPEC, "apa"), env=C.offline_env(), stdout=subprocess.PIPE, stderr=subprocess.STDOUT, text=True, timeout=900)
+    except subprocess.TimeoutExpired:
+        raise C.ToolError("apalache timed out on VintArith")
+    if "EXITCODE: OK" not in p.stdout or "NoError" not in p.stdout:
+        raise C.ToolError("Apalache did not discharge the vint arithmetic lemma (a problem of the specification):\n" + p.stdout[-1500:])
+    ctx.extra["apalache"] = {"module": "spec/apa/VintArith.tla", "invariant": "Lemma = MarkerLemma /\\ Canonical /\\ NoShorter /\\ SignedLemma /\\ NoOverflow",
+                             "domain": "w in 1..8, all integers 0 <= v < 2^(7w), all -2^(7w-1) <= sv < 2^(7w-1) (symbolic)", "outcome": "NoError", "wall_s": round(time.time() - t0, 1),
+                             "cmd": "apalache-mc check --init=Init --next=Next --inv=Lemma --length=0 VintArith.tla"}
+    C.log("  APALACHE VintArith Lemma: NoError  %.1fs" % (time.time() - t0))
+
+
 @prop("C15")
 def c15(ctx):
+    apalache_vintarith(ctx)
     codec_check(ctx, C15_FNS, ["Inv_W", "Inv_C15"],
                 "one evaluation = one call of a real codec function (as_vint, as_vint_with_length<1..8>, read_vint, is_vint, signed variants) recorded with input and output and compared by TLC with the Vint reference; distinct = distinct (function, input, width) triples; all are non-trivial (each exercises encode or decode of a concrete value/slice)")
 
